@@ -91,6 +91,11 @@ def read_paths(e):
     out = []
 
     def rec(n):
+        if isinstance(n, ast.Call) and isinstance(n.func, ast.Attribute):      # o.m(...): reads o (not "o.m")
+            rec(n.func.value)
+            for c in list(n.args) + [k.value for k in n.keywords]:
+                rec(c)
+            return
         p = path_of(n) if isinstance(n, (ast.Name, ast.Attribute, ast.Subscript)) else None
         if p is not None:
             out.append(p)
@@ -1087,16 +1092,21 @@ def subst_aliases(fn):
                 continue
             if any(isinstance(n, (ast.NamedExpr, ast.Yield, ast.YieldFrom, ast.Await, ast.Lambda)) for n in ast.walk(s.value)):
                 continue
+            if any(isinstance(n, ast.Call) and isinstance(n.func, ast.Attribute) and n.func.attr in MUTATORS for n in ast.walk(s.value)):
+                continue                      # d.pop(k), l.append(x): the value changes what later statements read
             loads = [n for n in ast.walk(fn) if isinstance(n, ast.Name) and n.id == x and isinstance(n.ctx, ast.Load)]
             later = {id(n) for t in blk[i + 1:] for n in ast.walk(t)}
             if not loads or any(id(n) not in later for n in loads):
                 continue
             is_path = path_of(s.value) is not None
-            if not is_path and (len(loads) != 1 or id(loads[0]) in multi):
+            is_lit = is_literal(s.value) and not any(isinstance(n, (ast.List, ast.Set)) for n in ast.walk(s.value))
+            if not is_path and not is_lit and (len(loads) != 1 or id(loads[0]) in multi):
                 continue
             reads = [expand(p) for p in read_paths(s.value)]
             after = [t for ts in stores[k + 1:] for t in ts]
-            if is_path:
+            if is_lit:
+                clash = False                 # an immutable literal
+            elif is_path:
                 clash = any(is_prefix(t, r) for t in after for r in reads)
             else:
                 clash = any(is_prefix(t, r) or is_prefix(r, t) for t in after for r in reads)
